@@ -54,7 +54,8 @@ CommonOk(b) == LET nm == NameOf(b) IN Len(nm) >= 1 /\ IsUtf8(Field(b, 42, 32))
 \* well-formed for its family: what "the device encoded" has a meaning for every field
 WellFormedFor(fam, b) ==
   /\ Len(b) = FamLen(fam) /\ CommonOk(b)
-  /\ CASE fam = "heater" -> At(b, 133) \in {0, 1} /\ TimeOk(Field(b, 147, 4)) /\ TimeOk(Field(b, 155, 4))
+  \* (the remaining-time field of a heater that reports OFF means nothing: it is reported as zero whatever it holds)
+  /\ CASE fam = "heater" -> At(b, 133) \in {0, 1} /\ (At(b, 133) = 0 \/ TimeOk(Field(b, 147, 4))) /\ TimeOk(Field(b, 155, 4))
        [] fam = "plug" -> At(b, 133) \in {0, 1}
        [] fam = "thermo" -> /\ At(b, 137) \in {0, 1} /\ At(b, 138) \in 1..5
                             /\ At(b, 140) \div 16 \in 0..3 /\ At(b, 140) % 16 \in {0, 1}
